@@ -11,7 +11,9 @@ mcCallsC ==
    [op |-> "end", sid |-> 1], [op |-> "oin", sid |-> 1]}
 mcAdvS == {}
 mcAdvC ==
-  Singles({APP(1, 2, "req_get_b"), APP(3, 2, "req_get_b"), APP(1, 4, "req_get_b"), APP(2, 4, "req_get_b"), AAck,
+  Singles({APP(1, 2, "req_head"),       \* the promised request is a HEAD: nothing changes for the parent stream's own response (C16)
+           AH(1, "resp200_cl3", FALSE), AD(1, 3, TRUE, -1),
+           APP(1, 2, "req_get_b"), APP(3, 2, "req_get_b"), APP(1, 4, "req_get_b"), APP(2, 4, "req_get_b"), AAck,
            AH(2, "resp200", FALSE), AH(2, "resp200", TRUE), AH(1, "resp200", TRUE),
            AD(2, 2, FALSE, -1), AD(2, 2, FALSE, 2), AD(1, 2, FALSE, 3), ARst(2, 8), ARst(1, 8), AWU(2, 5),
            \* END_STREAM and priority fields on the response of a pushed stream (closes it: C07 related events)
